@@ -37,7 +37,7 @@ if [ $res = ok ]; then
     fails=$(grep -E "^--- FAIL|^    --- FAIL" /tmp/confirm_${ID}_$V.suite.out | sed 's/ (.*//' | sort -u | tr '\n' ';')
     echo "suite $p: fails=[$fails]"
     # known flaky/failing at HEAD
-    bad=$(echo "$fails" | tr ';' '\n' | grep -v "TestCreatePing\|TestStart\|TestCancel\|TestRelease\|^$\|TestWebsocketListenerStartNetError" | tr '\n' ';')
+    bad=$(echo "$fails" | tr ';' '\n' | grep -v "TestCreatePing\|TestStart\|TestCancel\|TestRelease\|^$\|TestWebsocketListenerStartNetError\|TestPacketConn" | tr '\n' ';')
     if [ -n "$bad" ]; then echo "UNEXPECTED suite failures: $bad"; res=bad; fi
   done
 fi
